@@ -147,8 +147,10 @@ CHECKS = {
              "inverses, yields a closed definition and is idempotent; MatrixGenerator.inv, for ANY float-inverse candidate, returns a TWO-sided inverse that undoes the generator "
              "on states (via MathComp mulmx1C over Z/2^64 and Z/m), and rejects non-inverses. Tie: exact equality model = implementation on random generator lists "
              "(repeats, identity, involutions), unimodular and modular matrices with the recorded np.linalg.inv result as oracle.",
-        note="Trusted: Coq kernel, MathComp 1.15 (axiom-free here), model Def.v. PARTIAL: completeness of inv ('succeeds whenever an integer inverse exists') rests on LAPACK "
-             "returning the inverse within 1/2, validated by exploration only (416/1500 failures before the rounding fix, 0 after).",
+        note="Trusted: Coq kernel, MathComp 1.15 (axiom-free here), model Def.v. Completeness of inv ('succeeds whenever an integer inverse exists'): after fix F24 the code falls back "
+             "to an exact rational inverse; the model takes both candidates as oracle arguments (DefRun.mat_inv_fb) and proves that inv succeeds whenever the fallback delivers a right "
+             "inverse (mat_inv_fb_complete), for ANY float candidate. PARTIAL: that the Python fallback itself (_integer_inverse, Gauss-Jordan over Fractions) finds the inverse whenever "
+             "one exists is checked by an independent exact oracle (adjugate over Python integers) on every run, not proved.",
         technique="Coq proof (lists + MathComp bridge) + oracle-recorded correspondence",
         design="7 (C10)"),
     "C12": dict(
